@@ -127,13 +127,21 @@ class Kernel:
         self.at(self.now + int(d), fn, *args)
 
     def _run_due(self):
+        # Events that fell due while a task was computing are handled now, but each one at its own time: what a peer does in
+        # response (an answer, a reset) is scheduled from the moment the cause arrived, not from the moment the task next yielded.
         heap = self.heap
-        while heap and heap[0][0] <= self.now:
-            _t, _tb, _s, fn, args = heapq.heappop(heap)
-            self.events_run += 1
-            if self.events_run > self.max_events:
-                self.abort('EVENTS_EXCEEDED')
-            fn(*args)
+        real_now = self.now
+        try:
+            while heap and heap[0][0] <= real_now:
+                t, _tb, _s, fn, args = heapq.heappop(heap)
+                self.events_run += 1
+                if self.events_run > self.max_events:
+                    self.abort('EVENTS_EXCEEDED')
+                if t > self.now or t < self.now:
+                    self.now = t
+                fn(*args)
+        finally:
+            self.now = real_now
 
     # ------------------------------------------------------------------ tasks
     def me(self):
